@@ -753,6 +753,60 @@ impl Monitor for C08 {
                             if ob < u64::MAX {
                                 fork_expect(&v, mk(oa, ob + 1, na, nb), false, 6018, "reposition existing_range_token_min_b = proceeds + 1", ev.idx, &mut out);
                             }
+                            // nothing moves, the maximum still holds: a new-range liquidity chosen so that the new range costs, in one
+                            // token, exactly what the existing range releases (net transfer zero) - with that token's maximum one
+                            // below the cost the call must still be refused
+                            for side_b in [false, true] {
+                                let target = if side_b { ob } else { oa };
+                                if target == 0 {
+                                    continue;
+                                }
+                                let cost_x = |l: u128| -> BigUint {
+                                    let (ca, cb) = model::liquidity_amounts(l, x.pre_pool.tick_current_index, x.pre_pool.sqrt_price, new_lo, new_hi, true);
+                                    if side_b { cb } else { ca }
+                                };
+                                let (mut lo_l, mut hi_l) = (0u128, 1u128 << 110);
+                                if cost_x(hi_l) < BigUint::from(target) {
+                                    continue;
+                                }
+                                while lo_l < hi_l {
+                                    let mid = lo_l + (hi_l - lo_l) / 2;
+                                    if cost_x(mid) >= BigUint::from(target) { hi_l = mid } else { lo_l = mid + 1 }
+                                }
+                                if lo_l == 0 || cost_x(lo_l) != BigUint::from(target) {
+                                    continue;
+                                }
+                                let (ca, cb) = model::liquidity_amounts(lo_l, x.pre_pool.tick_current_index, x.pre_pool.sqrt_price, new_lo, new_hi, true);
+                                if model::to_u64(&ca).is_none() || model::to_u64(&cb).is_none() {
+                                    continue;
+                                }
+                                let mut fork = v.pre.clone();
+                                for k in [c.a("token_owner_account_a"), c.a("token_owner_account_b")] {
+                                    if let Some(a) = fork.get(&k).cloned() {
+                                        if a.data.len() >= 72 && k != x.pre_pool.vault_a && k != x.pre_pool.vault_b {
+                                            let mut dd = (*a.data).clone();
+                                            dd[64..72].copy_from_slice(&(u64::MAX / 2).to_le_bytes());
+                                            fork.put(k, rt::Account { lamports: a.lamports, data: std::rc::Rc::new(dd), owner: a.owner, executable: false });
+                                        }
+                                    }
+                                }
+                                for (label, max_x, expect_ok) in [("one below the cost", target - 1, false), ("equal to the cost", target, true)] {
+                                    let mut ix2 = v.ix.clone();
+                                    ix2.data[17..33].copy_from_slice(&lo_l.to_le_bytes());
+                                    ix2.data[33..41].copy_from_slice(&0u64.to_le_bytes());
+                                    ix2.data[41..49].copy_from_slice(&0u64.to_le_bytes());
+                                    let (ma, mb) = if side_b { (u64::MAX, max_x) } else { (max_x, u64::MAX) };
+                                    ix2.data[49..57].copy_from_slice(&ma.to_le_bytes());
+                                    ix2.data[57..65].copy_from_slice(&mb.to_le_bytes());
+                                    let mut f2 = fork.clone();
+                                    let r = rt::exec_tx_simple(&mut f2, &Tx { ixs: vec![ix2] });
+                                    cov.probe("reposition_zero_net_transfer_forks");
+                                    if r.ok != expect_ok && (r.ok || r.custom() == Some(6017)) {
+                                        out.push(viol("bound_edge", ev.idx, format!("reposition to {}..{} with liquidity {} costs {} of token {} - exactly what the existing range releases, so nothing of it moves - and with that token's maximum {} ({}) the call {} (code {:?})", new_lo, new_hi, lo_l, target, if side_b { "B" } else { "A" }, max_x, label, if r.ok { "goes through" } else { "is refused" }, r.custom())));
+                                        break;
+                                    }
+                                }
+                            }
                             let net_dir = |n: i128| if n > 0 { "owner_pays" } else if n < 0 { "owner_receives" } else { "zero" };
                             cov.eval(format!("reposition_edges|a={}|b={}", net_dir(net_a), net_dir(net_b)));
                         }
